@@ -33,10 +33,12 @@ impl SegPos {
     }
 
     pub(crate) fn reversed(&self, word: &Word) -> Self {
-        debug_assert!(word.in_bounds(*self));
+        // NOTE: an insertion point at the end of a syllable (seg_index == len) reverses to "one before" the first
+        // segment of the reversed syllable (seg_index wraps), which `increment` then moves onto that first segment
+        debug_assert!(self.syll_index < word.syllables.len() && self.seg_index <= word.syllables[self.syll_index].segments.len());
         SegPos::new(
             word.syllables.len() - 1 - self.syll_index, 
-            word.syllables[self.syll_index].segments.len() - 1 - self.seg_index
+            (word.syllables[self.syll_index].segments.len() - 1).wrapping_sub(self.seg_index)
         )
     }
 
@@ -48,7 +50,7 @@ impl SegPos {
             return
         }
 
-        self.seg_index += 1;
+        self.seg_index = self.seg_index.wrapping_add(1);
         if self.seg_index >= word.syllables[self.syll_index].segments.len() {
             self.seg_index = 0;
             self.syll_index += 1;
